@@ -176,7 +176,8 @@ Proof.
   apply Rle_trans with (nth j ts 0). apply IHj; lia. apply H. lia.
 Qed.
 Lemma times_nondecr dts : (forall g, (g < length dts)%nat -> 0 <= nth g dts 0) -> nondecr (times RO dts).
-Proof. intros H i Hi. rewrite times_length in Hi. rewrite times_nth_S by lia. specialize (H i). lra. Qed.
+Proof. intros H i Hi. rewrite times_length in Hi. rewrite times_nth_S by lia.
+  assert (0 <= nth i dts 0) by (apply H; lia). lra. Qed.
 
 (* number of elements strictly below tq; np.searchsorted(t, tq) for nondecreasing t *)
 Fixpoint count_lt (ts : list R) (tq : R) : nat :=
@@ -209,8 +210,8 @@ Proof.
     split. intros; lia. intros i _ Hi. apply Hall. exact Hi.
 Qed.
 Lemma last_nth_R (l : list R) : last l 0 = nth (length l - 1) l 0.
-Proof. induction l as [|x r IH]. reflexivity. destruct r. reflexivity.
-  change (last (x :: r0 :: r) 0) with (last (r0 :: r) 0). rewrite IH. simpl. rewrite Nat.sub_0_r. reflexivity. Qed.
+Proof. induction l as [|x [|y r] IH]; try reflexivity.
+  change (last (x :: y :: r) 0) with (last (y :: r) 0). rewrite IH. simpl. rewrite Nat.sub_0_r. reflexivity. Qed.
 
 (* the selected index g satisfies t_g < tq <= t_{g+1}; for tq at or below t_0 it is 0 *)
 Theorem searchsorted_spec ts tq : nondecr ts -> (2 <= length ts)%nat -> tq <= last ts 0 ->
@@ -224,7 +225,7 @@ Proof.
   destruct (count_lt ts tq) as [|c] eqn:E; simpl.
   - assert (H0 : tq <= nth 0 ts 0) by (apply P2; lia).
     split. lia. split. 2:{ right. auto. }
-    apply Rle_trans with (nth 0 ts 0); auto. apply Hs. lia.
+    apply Rle_trans with (nth 0 ts 0); [exact H0 | apply Hs; lia].
   - assert (Hc' : (S c < length ts)%nat).
     { destruct (Nat.eq_dec (S c) (length ts)) as [Heq|]. 2: lia.
       exfalso. rewrite last_nth_R in Hlast.
@@ -330,8 +331,8 @@ Proof.
 Qed.
 (* total_propagator = propagators[-1] = Q_G *)
 Lemma last_nth_mat (l : list (Mat (T:=R))) dflt : l <> [] -> last l dflt = nth (length l - 1) l [].
-Proof. induction l as [|x r IH]; intros H. congruence. destruct r. reflexivity.
-  change (last (x :: m :: r) dflt) with (last (m :: r) dflt). rewrite IH by discriminate.
+Proof. induction l as [|x [|y r] IH]; intros H. congruence. reflexivity.
+  change (last (x :: y :: r) dflt) with (last (y :: r) dflt). rewrite IH by discriminate.
   simpl. rewrite Nat.sub_0_r. reflexivity. Qed.
 Theorem total_is_last : toF (total_propagator RO d Qs) = Q_ (length evs).
 Proof.
@@ -364,7 +365,7 @@ Qed.
 Theorem U_initial : (0 < length evs)%nat -> feq d (U_ 0 0) fid.
 Proof.
   intros Hg. assert (E : t_ 0 = 0) by apply times_nth_0.
-  rewrite <- E at 2. rewrite U_left_edge by assumption. apply propagators_0.
+  replace (U_ 0 0) with (U_ 0 (t_ 0)) by (rewrite E; reflexivity). rewrite U_left_edge by assumption. apply propagators_0.
 Qed.
 Theorem U_unitary g t : (g < length evs)%nat -> funitary d (U_ g t).
 Proof.
@@ -377,6 +378,16 @@ Theorem U_schroedinger g t i j : (g < length evs)%nat -> (i < d)%nat -> (j < d)%
 Proof.
   intros Hg Hi Hj. unfold U_, H_. apply schroedinger_entry; auto.
 Qed.
+(* the same with the Hamiltonian the eigenpairs were computed from: H V_g = V_g D_g *)
+Theorem U_schroedinger_H (Hm : fmat) g t i j : (g < length evs)%nat -> (i < d)%nat -> (j < d)%nat ->
+  feq d (fmul d Hm (toF (nth g Vs []))) (fmul d (toF (nth g Vs [])) (fdiagv (fun k => cofr RO (vg RO (nth g evs []) k)))) ->
+  cderive (fun s => U_ g s i j) t (fscal (cneg' ic) (fmul d Hm (U_ g t)) i j).
+Proof.
+  intros Hg Hi Hj E.
+  assert (E2 : feq d (fscal (cneg' ic) (fmul d Hm (U_ g t))) (fscal (cneg' ic) (fmul d (H_ g) (U_ g t)))).
+  { unfold H_. rewrite <- (fspec_of_eig d Hm _ _ (HU g Hg) E). reflexivity. }
+  rewrite (E2 i j Hi Hj). apply U_schroedinger; assumption.
+Qed.
 Theorem U_continuous g t i j : (g < length evs)%nat -> (i < d)%nat -> (j < d)%nat ->
   continuous (fun s => fst (U_ g s i j)) t /\ continuous (fun s => snd (U_ g s i j)) t.
 Proof. intros Hg Hi Hj. eapply cderive_continuous. apply U_schroedinger; assumption. Qed.
@@ -388,14 +399,14 @@ Proof.
   intros Hg. unfold U_.
   replace (t_ g + (s1 + s2) - t_ g) with (s2 + s1) by ring.
   replace (t_ g + s1 - t_ g) with s1 by ring.
-  rewrite fexpm_add by (apply HU; assumption). symmetry. apply fmul_assoc.
+  rewrite (fexpm_add d _ _ (HU g Hg)). symmetry. apply fmul_assoc.
 Qed.
 (* H_g is Hermitian and has the cached eigenpairs *)
-Theorem H_hermitian g : (g < length evs)%nat -> fherm d (H_ g).
-Proof. intros Hg. apply fspec_herm. apply HU; assumption. Qed.
+Theorem H_hermitian g : fherm d (H_ g).
+Proof. exact (fspec_herm d _ _). Qed.
 Theorem H_eigen g : (g < length evs)%nat ->
   feq d (fmul d (H_ g) (toF (nth g Vs []))) (fmul d (toF (nth g Vs [])) (fdiagv (fun j => cofr RO (vg RO (nth g evs []) j)))).
-Proof. intros Hg. apply fspec_eig. apply HU; assumption. Qed.
+Proof. intros Hg. exact (fspec_eig d _ _ (HU g Hg)). Qed.
 
 (* ----- propagator_at_arb_t: selection of the segment ----- *)
 Lemma sel_first_1 tg tg1 tq : tq <= tg1 -> sel_weight RO true tg tg1 tq = 1.
@@ -409,13 +420,19 @@ Lemma sel_in tg tg1 tq : tg < tq -> tq <= tg1 -> sel_weight RO false tg tg1 tq =
 Proof. intros H1 H2. unfold sel_weight. simpl. apply Rgtb_true in H1. apply Rgtb_false in H2.
   rewrite H1, H2. reflexivity. Qed.
 
+Lemma arb_t_loop_cons first e es W Ws Rm Rs tg tg1 us tq :
+  arb_t_loop RO d first (e :: es) (W :: Ws) (Rm :: Rs) (tg :: tg1 :: us) tq =
+  madd RO d (mscalr RO d (sel_weight RO first tg tg1 tq) (arb_t_segment RO d e W Rm tg tq))
+            (arb_t_loop RO d false es Ws Rs (tg1 :: us) tq).
+Proof. reflexivity. Qed.
+
 Lemma arb_loop_zero : forall es Ws Rs us tq, nondecr us -> tq <= hd 0 us ->
   feq d (toF (arb_t_loop RO d false es Ws Rs us tq)) fzero.
 Proof.
   induction es as [|e es IH]; intros Ws Rs us tq Hs Hq. apply toF_mzero.
   destruct Ws as [|W Ws]. apply toF_mzero. destruct Rs as [|Rm Rs]. apply toF_mzero.
   destruct us as [|tg [|tg1 us]]; try apply toF_mzero.
-  simpl in Hq. simpl arb_t_loop.
+  simpl in Hq. rewrite arb_t_loop_cons.
   rewrite toF_madd, toF_mscalr, sel_below by assumption.
   rewrite IH.
   - change (cofr RO 0) with 0c. rewrite fscal_zero. apply fadd_zero_l.
@@ -435,7 +452,7 @@ Proof.
     destruct Ws as [|W Ws]; simpl in H1; try lia;
     destruct Rs as [|Rm Rs]; simpl in H2; try lia;
     destruct us as [|tg [|tg1 us]]; simpl in H3; try lia.
-  - simpl in Hlo, Hhi. simpl arb_t_loop. simpl nth.
+  - simpl in Hlo, Hhi. rewrite arb_t_loop_cons. simpl nth.
     rewrite toF_madd, toF_mscalr.
     rewrite arb_loop_zero; [| eapply nondecr_tail; eassumption | simpl; assumption].
     assert (W1 : sel_weight RO first tg tg1 tq = 1).
@@ -446,7 +463,7 @@ Proof.
     { destruct Hlo as [[_ Hx]|Hlo]. discriminate. exact Hlo. }
     assert (Hmono : tg1 <= nth (S g) (tg :: tg1 :: us) 0).
     { apply (nondecr_mono (tg :: tg1 :: us) 1 (S g) Hs). lia. simpl. simpl in H3. lia. }
-    simpl arb_t_loop.
+    rewrite arb_t_loop_cons.
     rewrite toF_madd, toF_mscalr, sel_above by lra.
     change (cofr RO 0) with 0c. rewrite fscal_zero, fadd_zero_l.
     rewrite (IHg es Ws Rs (tg1 :: us) false tq); try (simpl; lia).
